@@ -8,8 +8,8 @@ package main
 //   ghostUnmarshalled any                        last destination handed to (*diam.Message).Unmarshal
 //   ghostMarshalled any                          last value handed to (*diam.Message).Marshal
 //   ghostWrites     int                          number of (*diam.Message).WriteTo calls
-//   ghostQuota      map[string]map[uint32]string  account database: quota string per (ueId, ratingGroup)
-//   ghostUnitCost   map[string]map[uint32]string  account database: unitCost string per (ueId, ratingGroup)
+//   ghostQuota      map[struct{Ue string; Rg uint32}]string  account database: quota string per (ueId, ratingGroup)
+//   ghostUnitCost   map[struct{Ue string; Rg uint32}]string  account database: unitCost string per (ueId, ratingGroup)
 
 import (
 	"go/token"
@@ -121,7 +121,11 @@ func numericStringExterns() {
 		return VStr{App("gostr.replace", StrSort, args[0].(VStr).T, args[1].(VStr).T, args[2].(VStr).T, args[3].(VBV).T)}, pc
 	})
 	regExtern("math.Pow10", "Pow10(e): uninterpreted function of e", func(ex *Exec, fr *Frame, st *State, pc *Term, fn *ssa.Function, args []Value, pos token.Pos) (Value, *Term) {
-		return VOpaque{App("pow10", BV64, args[0].(VBV).T)}, pc
+		e := args[0].(VBV).T
+		p := App("pow10", BV64, e)
+		// 10^e for 0 <= e <= 19 converts to a non-zero int64 (on amd64 the overflowing 10^19 becomes MinInt64)
+		ex.assume(pc, Implies(And(SLe(C64(0), e), SLe(e, C64(19))), Not(Eq(App("float2int64", BV64, p), C64(0)))))
+		return VOpaque{p}, pc
 	})
 }
 
@@ -181,20 +185,18 @@ func init() {
 	filterKey := func(ex *Exec, st *State, pc *Term, filter Value, ft types.Type) dbKey {
 		mt := under(ft).(*types.Map)
 		m := filter.(VMap)
-		uv, _ := ex.mapGet(st, pc, mt, m.T, StrLit("ueId"))
-		rv, _ := ex.mapGet(st, pc, mt, m.T, StrLit("ratingGroup"))
+		uv, _ := ex.mapGet(st, pc, mt, m.T, []*Term{StrLit("ueId")})
+		rv, _ := ex.mapGet(st, pc, mt, m.T, []*Term{StrLit("ratingGroup")})
 		ui := uv.(VIface)
 		ue := ex.unbox(st, pc, ui.Pay, stringT).(VStr).T
 		return dbKey{ue, Extract(31, 0, rv.(VIface).Pay)}
 	}
+	// ghost tables: map[struct{Ue string; Rg uint32}]string
 	ghostLookup := func(ex *Exec, st *State, pc *Term, g *ssa.Global, k dbKey) (*Term, *Term, *Term) {
-		outer := under(under(g.Type()).(*types.Pointer).Elem()).(*types.Map)
-		inner := under(outer.Elem()).(*types.Map)
+		mt := under(under(g.Type()).(*types.Pointer).Elem()).(*types.Map)
 		om := ex.ghostLoad(st, pc, g).(VMap)
-		iv, ip := ex.mapGet(st, pc, outer, om.T, k.ue)
-		im := iv.(VMap).T
-		v, p := ex.mapGet(st, pc, inner, im, k.rg)
-		return v.(VStr).T, And(ip, p), im
+		v, p := ex.mapGet(st, pc, mt, om.T, []*Term{k.ue, k.rg})
+		return v.(VStr).T, p, om.T
 	}
 	regExtern("github.com/free5gc/util/mongoapi.RestfulAPIGetOne", "RestfulAPIGetOne(coll, {ueId, ratingGroup}): the document of the ghost account tables (fields quota / unitCost, both strings) or nil when the account is unknown; the database is reachable (nil error)",
 		func(ex *Exec, fr *Frame, st *State, pc *Term, fn *ssa.Function, args []Value, pos token.Pos) (Value, *Term) {
@@ -211,7 +213,7 @@ func init() {
 						present = pr
 						found = true
 					}
-					ex.mapSet(st, docT, p, StrLit(fld.key), ex.boxString(st, pc, s))
+					ex.mapSet(st, docT, p, []*Term{StrLit(fld.key)}, ex.boxString(st, pc, s))
 				}
 			}
 			if !found {
@@ -228,13 +230,12 @@ func init() {
 				if !ok {
 					continue
 				}
-				nv, has := ex.mapGet(st, pc, dt, args[2].(VMap).T, StrLit(fld.key))
-				_, pr, im := ghostLookup(ex, st, pc, g, k)
+				nv, has := ex.mapGet(st, pc, dt, args[2].(VMap).T, []*Term{StrLit(fld.key)})
+				old, pr, om := ghostLookup(ex, st, pc, g, k)
 				ex.oblige(fr, "db", "RestfulAPIPutOne writes "+fld.key+" of an account that is not in the table (unknown subscriber or rating group)", pos, And(pc, has), pr, ex.safetyProps)
 				s := ex.unbox(st, pc, nv.(VIface).Pay, stringT).(VStr).T
-				inner := under(under(under(g.Type()).(*types.Pointer).Elem()).(*types.Map).Elem()).(*types.Map)
-				old, _ := ex.mapGet(st, pc, inner, im, k.rg)
-				ex.mapSet(st, inner, im, k.rg, VStr{Ite(has, s, old.(VStr).T)})
+				mt := under(under(g.Type()).(*types.Pointer).Elem()).(*types.Map)
+				ex.mapSet(st, mt, om, []*Term{k.ue, k.rg}, VStr{Ite(has, s, old)})
 			}
 			return VTuple{[]Value{VBool{Fresh("putone.existed", BoolSort)}, VIface{C64(0), C64(0)}}}, pc
 		})
